@@ -56,7 +56,7 @@ def shards(tier):
 def floors(tier):
     f = {"cases": 15000, "cases_with_errors": 4000, "arrangements": 3000, "chains": 300, "inner_store_refs": 100,
          "siblings_next_to_ref": 300, "hostile_name_resolutions": 2000, "recursive_cases": 1000,
-         "recursion_depth3plus": 200, "model_crosschecks": 2000, "max_scope_depth": 3, "transform_selfcheck_ok": 3000, "foreign_id_keywords_on_path": 500, "relative_id_in_store_doc": 200,
+         "recursion_depth3plus": 200, "model_crosschecks": 2000, "max_scope_depth": 3, "transform_selfcheck_ok": 3000, "foreign_id_keywords_on_path": 500, "relative_id_in_store_doc": 200, "reused_after_validate": 5000,
          "uri_calibration": 60}
     for m in ("noid", "rootid", "rootid#", "nested"):
         f["mode:" + m] = 200
@@ -105,6 +105,30 @@ def compare(ctx, d, S, S0, store, handler_docs, inst, info, mech=None, model=Tru
         return
     if len(resolver._scopes_stack) != 1:
         ctx.count("scope_not_restored_delegated_to_C07")
+    # transparency also holds on a validator that has been used before: after validate() raised (the exception
+    # still referenced) and after is_valid(), the same validator must give the same locations again
+    if l0 and info.get("refs"):
+        cls = impl.CLS[d]
+        V = cls(S, resolver=make_resolver(d, S, store, handler_docs))
+        kept = None
+        try:
+            try:
+                V.validate(inst)
+            except X.ValidationError as e:
+                kept = e
+            V.is_valid(inst)
+            again = locs(V.iter_errors(inst))
+            ctx.count("reused_after_validate")
+            if again != l0:
+                ctx.violation("locations-differ-on-reused-validator", case,
+                              "after validate() raised and is_valid() ran, the same validator gives %r, inlined %r" % (again[:3], l0[:3]), mech=mech)
+                return
+        except X.RefResolutionError as e:
+            ctx.violation("resolvable-reference-failed", case, "on the validator's second use: RefResolutionError %s" % str(e)[:100], mech=mech)
+            return
+        except Exception:
+            ctx.count("reused_validator_exception_delegated")
+        del kept
     if model:
         docs = dict(store)
         docs.update(handler_docs)
